@@ -13,7 +13,9 @@ CHECKS = {
              "(soundness of interval and congruence, representation invariant, tightness witnesses) for every operand "
              "annotation with unbounded symbolic bounds and every operand value; moduli enumerated up to a stated bound; "
              "64-bit gate and C++ type choice for all integer ranges.  Step soundness for arbitrary abstract operands plus "
-             "leaf soundness gives soundness of every expression by induction over the bottom-up annotation pass.",
+             "leaf soundness gives soundness of every expression by induction over the bottom-up annotation pass.  Layer (c): "
+             "every (sub)expression of every corpus module is evaluated in z3 over its field/parameter variables and checked "
+             "against its inferred interval, congruence, folded constant and (single-occurrence) tightness.",
         note="Assumes the representation invariant on operands (it is re-proved for every result); moduli <= 4 quick / 12 thorough; "
              "$max arity <= 3; trusted: z3, cvc5, CPython 3.11, pysym proxies, oracles in vf/checks/c05.py.",
         design="DESIGN.md section 3 C05",
